@@ -211,9 +211,55 @@ def t_twin_policy(it, kind, with_retry):
 # ---------------------------------------------------------------------------------------------
 #  3. call == execute up to delivery
 # ---------------------------------------------------------------------------------------------
+def eq_formula(x, y):
+    """z3 formula stating that two canonical trace values are equal (None if structurally incomparable)"""
+    if isinstance(x, z3.ExprRef) and isinstance(y, z3.ExprRef):
+        if x.eq(y):
+            return z3.BoolVal(True)
+        if x.sort() == y.sort():
+            return x == y
+        return z3.BoolVal(False)
+    if isinstance(x, tuple) and x and x[0] == "opt" and not (isinstance(y, tuple) and y and y[0] == "opt"):
+        if y is None:
+            return x[1]
+        inner = eq_formula(x[2], y)
+        return z3.And(z3.Not(x[1]), inner) if inner is not None else None
+    if isinstance(y, tuple) and y and y[0] == "opt" and not (isinstance(x, tuple) and x and x[0] == "opt"):
+        return eq_formula(y, x)
+    if isinstance(x, tuple) and isinstance(y, tuple):
+        if x and y and x[0] == "opt" and y[0] == "opt":
+            inner = eq_formula(x[2], y[2]) if (x[2] is not None and y[2] is not None) else z3.BoolVal(x[2] is None and y[2] is None)
+            return z3.Or(z3.And(x[1], y[1]), z3.And(z3.Not(x[1]), z3.Not(y[1]), inner))
+        if len(x) != len(y):
+            return z3.BoolVal(False)
+        parts = [eq_formula(u, v) for u, v in zip(x, y)]
+        if any(q is None for q in parts):
+            return None
+        return z3.And(parts) if parts else z3.BoolVal(True)
+    if isinstance(x, z3.ExprRef) or isinstance(y, z3.ExprRef):
+        zx, other = (x, y) if isinstance(x, z3.ExprRef) else (y, x)
+        if isinstance(other, bool) and zx.sort() == z3.BoolSort():
+            return zx == other
+        if isinstance(other, int) and not isinstance(other, bool) and zx.sort() == z3.IntSort():
+            return zx == other
+        if isinstance(other, (int, float)) and not isinstance(other, bool) and zx.sort() == z3.RealSort():
+            from pyvc.ops import rv
+            return zx == rv(other)
+        if isinstance(other, str) and zx.sort() == z3.StringSort():
+            return zx == z3.StringVal(other)
+        return z3.BoolVal(False)
+    return z3.BoolVal(x == y)
+
+
+COMPARED_KINDS_CALL_EXECUTE = {"func", "abort_if", "classifier", "result_classifier", "strategy", "sleep_fn", "before_sleep", "sleep",
+                               "budget.consume", "emit", "_handle_failure", "sleep_action"}
+
+
 def compare_call_execute(base):
     def compare(it, a, b, p):
-        ta, tb = a["trace"], b["trace"]
+        # attempt hooks are not among the kinds C12 compares between call() and execute()
+        ta = [x for x in a["trace"] if x[0] in COMPARED_KINDS_CALL_EXECUTE]
+        tb = [x for x in b["trace"] if x[0] in COMPARED_KINDS_CALL_EXECUTE]
         same = len(ta) == len(tb) and all(x[0] == y[0] and same_tr(x[1], y[1]) for x, y in zip(ta, tb))
         first = next((i for i, (x, y) in enumerate(zip(ta, tb)) if x[0] != y[0] or not same_tr(x[1], y[1])), None)
         if first is None and len(ta) != len(tb):
@@ -238,8 +284,11 @@ def compare_call_execute(base):
             e = ca[1]
             if e.cls is not None and e.cls.name == "RetryExhaustedError":
                 o = cb[1] if cb[0] == "ok" else None
-                ok = o is not None and isinstance(o, Obj) and o.fields.get("ok") is False and all(
-                    same_tr(tr(e.fields[k]), tr(o.fields[k])) for k in ("stop_reason", "attempts", "last_class", "last_result", "next_sleep_s"))
+                if o is not None and isinstance(o, Obj) and o.fields.get("ok") is False:
+                    parts = [eq_formula(tr(e.fields[k]), tr(o.fields[k])) for k in ("stop_reason", "attempts", "last_class", "last_result", "next_sleep_s")]
+                    ok = z3.And(parts) if all(q is not None for q in parts) else False
+                else:
+                    ok = False
                 why = "RetryExhaustedError(f) <-> outcome fields f"
             elif e.cls is not None and e.cls.name == "AbortRetryError":
                 o = cb[1] if cb[0] == "ok" else None
@@ -569,8 +618,8 @@ TASKS += [
     _pair_task("twin.runners.call", lambda it: t_twin_runners(it, "call"), 20, (9, 24)),
     _pair_task("twin.runners.execute", lambda it: t_twin_runners(it, "execute"), 20, (9, 24)),
     _pair_task("twin.sleep_action", t_twin_sleep_action, 2),
-    _pair_task("call~execute.sync", lambda it: t_call_vs_execute(it, "sync"), 20, (9, 24)),
-    _pair_task("call~execute.async", lambda it: t_call_vs_execute(it, "async"), 20, (9, 24)),
+    _pair_task("call~execute.sync", lambda it: t_call_vs_execute(it, "sync"), 30),
+    _pair_task("call~execute.async", lambda it: t_call_vs_execute(it, "async"), 30),
 ] + [
     _pair_task(f"twin.policy.{kd}[{'retry' if wr else 'no-retry'}]", (lambda kd, wr: (lambda it: t_twin_policy(it, kd, wr)))(kd, wr), 3)
     for kd in ("call", "execute") for wr in (True, False)
@@ -584,5 +633,8 @@ TASKS += [
     Task("forward.constructors", t_forward_constructors, [P], []),
 ]
 for _t in TASKS:
+    if _t.name.startswith("call~execute"):
+        _t.thorough_only = True  # full path product of two runners: ~15 min serial each
+        _t.time_limit = 3000
     _t.assumptions = ["C12 twins: cancellation injected at an await and awaitable-returning callbacks are async-only behaviours and are switched off in the "
                       "comparison ('call a maybe-awaitable and await it' is one interaction); agreement when observability hooks raise is C15's subject"]
